@@ -50,6 +50,10 @@ func checkC10(P *Prog, r *Result) {
 	// string to the query parser (tag `query`) and a form body to the form parser (tag `form`) - a HEAD request with a
 	// form content type that goes to the form parser has its query parameters keyed by the `form` tag (C15's table)
 	shareRule(P, r, checkC15, "C15/dispatch-table", nil, "C10/source-tag-of-the-source-read", 4)
+	// the key of a field comes from the destination type of *this* call: nothing about a destination is remembered in
+	// the schema (a per-schema cache of reflect.StructField keeps the zog tags of the first type validated) - C08's
+	// write-effects rule on the struct node, as C16 adopts it
+	shareRule(P, r, checkC08, "C08/write-effects", func(o Obligation) bool { return strings.Contains(o.Construct, "StructSchema)") }, "C10/key-from-this-calls-destination", 2)
 	shareRule(P, r, checkC07, "C07/release", func(o Obligation) bool { return strings.Contains(o.Construct, "PathBuilder") }, "C10/path-builder-own", 0)
 	shareRule(P, r, checkC07, "C07/reinit", func(o Obligation) bool { return strings.Contains(o.Construct, "PathBuilder") }, "C10/path-builder-clean", 0)
 	_ = R
